@@ -409,7 +409,8 @@ def worker(args):
     return findings, stats, samples
 
 
-def explore(ctx, plan, nproc=14):
+def explore(ctx, plan, nproc=None):
+    nproc = nproc or int(os.environ.get('C01_PROCS', '8'))
     corpus = load_corpus(core.REPO)
     corpus_programs = []
     root = os.path.join(core.REPO, 'tests', 'basic')
@@ -479,7 +480,8 @@ def run(ctx):
         plan = [('templates', 2100), ('corpus', 1700), ('files', 560), ('default', 420), ('renum', 280)]
     else:
         plan = [('templates', 120000), ('corpus', 120000), ('files', 30000), ('default', 14000), ('renum', 14000)]
-    explore(ctx, plan)
+    scale = float(os.environ.get('C01_SCALE', '1'))
+    explore(ctx, [(k, int(n * scale)) for k, n in plan])
 
 
 def replay(ctx, payload):
